@@ -662,7 +662,8 @@ impl DepthFirstSearch {
 
         // Find candidate rules that could prove this sub-goal
         for candidate_rule in kb.get_rules() {
-            if self.rule_could_prove_pattern(&candidate_rule, &goal_pattern) {
+            // disabled rules take no part in backward chaining (the conclusion index skips them too)
+            if candidate_rule.enabled && self.rule_could_prove_pattern(&candidate_rule, &goal_pattern) {
                 sub_goal.add_candidate_rule(candidate_rule.name.clone());
             }
         }
